@@ -33,6 +33,13 @@ def margRender (r : Except MargErr (Arr XR)) (impl : String) (tag : String) : Ve
 def optNats (s : String) : Option (Option (List Nat)) :=
   if s == "N" then some none else (parseNats (s.drop 1).toString).map some
 
+/-- a CLI error against the model's: equal, or an error whose wording the harness could not map to a kind (`ERR other:…`: the
+    invocation is still refused with a diagnostic — not comparable rather than wrong), or a real disagreement -/
+def cmpCliErr (impl model tag : String) : Verdict :=
+  if impl == model then .ok tag
+  else if impl.startsWith "ERR other:" && !impl.endsWith "+stdout" then .differs model
+  else .bad model
+
 def viewErrRender : ViewErr → String
   | .marg (.duplicateAxis ax) => s!"ERR marg-dup {ax}"
   | .marg (.axisOutOfBounds ax _) => s!"ERR marg-oob {ax}"
@@ -55,6 +62,9 @@ def histArrStep (st : Arr Nat) (op : String) (tok : String) : Option (Arr Nat ×
     let i ← f.toNat?; let x ← v.toNat?
     pure (⟨st.data.set i x, st.shape⟩, tok == "-")
   | ["clone"] => some (st, tok == "-")
+  | ["clonefrom", sh, k] | ["asg", sh, k] => do
+    let shape ← parseNats sh; let k ← k.toNat?
+    pure (⟨(List.range (size shape)).map (fun i => (i * k + 1) % 1000), shape⟩, tok == "-")
   | ["view", ax, pos, n] => do
     let ax ← ax.toNat?; let pos ← pos.toNat?; let n ← n.toNat?
     match st.getAxis ax pos with
@@ -135,6 +145,17 @@ def handle (op : String) (a : List String) (impl : String) : Option Verdict :=
     let T := shape.sum - shape.length
     pure (cmpArr impl shape (foldSpectrum half fill shape data) none
       (if T % 2 == 0 then s!"fold-diag-{f}" else s!"fold-nodiag-{f}"))
+  | "c05.big", [sh, _k] => do
+    -- a spectrum too large for the list-based model: the implementation's fold is held against what the C05 theorems state for every
+    -- fold (fold_mass: the mass is kept with fill 0; fold_spec: the upper half is entry + mirror entry, everything beyond the midpoint
+    -- is the fill; fold_idem; reverse_is_mirror) — all on small integer data, where binary64 sums are exact
+    let shape ← parseNats sh
+    match impl.splitOn "|" with
+    | [mi, mo, past, low, idem, mirror] =>
+      if mi == mo && past == "0" && low == "0" && idem == "1" && mirror == "1" then
+        pure (.ok s!"fold-big-d{shape.length}-{if shape.foldl (· + ·) 0 > 131072 then "gt2p17" else "le2p17"}")
+      else pure (.bad s!"mass kept ({mi}), nothing beyond the midpoint (0), entry + mirror below it (0 wrong), idempotent (1), mirror-invariant (1)")
+    | _ => none
   | "c05.fold2", [sh, bs] => do
     let shape ← parseNats sh; let data ← parseBits bs
     let once := foldSpectrum half (.fin 0) shape data
@@ -198,7 +219,7 @@ def handle (op : String) (a : List String) (impl : String) : Option Verdict :=
       let floor : Rat := if o.normalize then 1 else sumAbs data
       if impl.startsWith "OK " then pure (cmpArr (impl.drop 3).toString b.shape b.data (some floor) optTag)
       else pure (.bad s!"OK {showNats b.shape}|{showXRs b.data}")
-    | .error e => pure (cmpStr impl (viewErrRender e) s!"{kind}-error")
+    | .error e => pure (cmpCliErr impl (viewErrRender e) s!"{kind}-error")
   | "c13.viewtext", [sh, bs, rm, kp, ps, pi, mk, nm, pr] => do
     let shape ← parseNats sh; let data ← parseBits bs; let p ← pr.toNat?
     let rm ← optNats rm; let kp ← optNats kp; let ps ← optNats ps; let pi ← optNats pi
@@ -213,11 +234,27 @@ def handle (op : String) (a : List String) (impl : String) : Option Verdict :=
         let text := unescape (impl.drop 3).toString
         if cmpTextNumeric text b.shape (b.data.map ratOfXR) p floor then pure (.ok s!"viewtext-p{p}-m{if rm.isSome || kp.isSome then 1 else 0}p{if ps.isSome || pi.isSome then 1 else 0}k{mk}n{nm}")
         else pure (.bad s!"text of {showNats b.shape}|{showXRs b.data} at precision {p}")
-    | .error e => pure (cmpStr impl (viewErrRender e) "viewtext-error")
+    | .error e => pure (cmpCliErr impl (viewErrRender e) "viewtext-error")
   | _, _ =>
     match op.splitOn "." with
     | [p, "mem"] => handleMem a impl p
     | [p, "cli"] => handleCli a impl p
+    | [_, "mass"] =>
+      -- a run far larger than the model is evaluated on: the binary's own figures against the conservation theorem of C10
+      -- (`conservation`: mass + skipped = records for every call set, with or without projection)
+      match impl.splitOn "|" with
+      | ["OK", nrec, skipped, massBits, _header] =>
+        match nrec.toNat?, skipped.toNat?, parseHexNat massBits with
+        | some n, some k, some b =>
+          match f64OfBits b with
+          | .fin m =>
+            let diff := m + (k : Rat) - (n : Rat)
+            if absRat diff ≤ 1 / 100 then some (.ok s!"mass-{if n > 65536 then "gt2p16" else "le2p16"}-{if k > 0 then "skips" else "noskips"}")
+            else some (.bad s!"mass + skipped = records ({n}); got mass {(XR.fin m).render} + {k}")
+          | _ => some (.bad "finite mass")
+        | _, none, _ => some (.differs "summary line not recognised")
+        | _, _, _ => none
+      | _ => some (.bad "OK|records|skipped|mass|header")
     | ["c12", "same"] => handleSame a impl
     | ["ct", "create"] => handleBytes a impl
     | ["hist", "scs"] => handleHist a impl
